@@ -43,7 +43,28 @@ PROP = {'suites': ['c18'],
          'the refresh token by the owner, by another client, refused, by jti, userinfo, TokenInfo, TokenInfoFromRequest, serialised TokenInfo, discovery, jwks. Generator dimension (48 quick / 700 '
          'thorough histories): worlds whose clients all (or a random subset) issue JWT access tokens, the online generator run in segments with a burst of read-only requests about live tokens '
          'followed by a refresh between two segments. A quarter of them, and two corpus variants, run with an embedder whose HandleGrantFunc attaches token / id token / userinfo claims (nested '
-         'values, numbers) to the GrantInfo it is handed, so that the claim maps are not empty.',
+         'values, numbers) to the GrantInfo it is handed, so that the claim maps are not empty. (5) What the JSON document of a CLIENT and of a GRANT must still carry (harness/suite_c18_authn.go, '
+         'suite_c18_fields.go). The copying flavour keeps clients as json.Marshal documents and hands out json.Unmarshal copies too (stores.go jClients); clients that live in the client manager '
+         'because they were registered through /register exercise it with everything the registration handler writes. Directed histories, one per client authentication method - client_secret_basic, '
+         'client_secret_post, client_secret_jwt (HS256 assertion keyed with the clear secret of the registration answer), private_key_jwt with inline jwks and with jwks_uri, tls_client_auth '
+         '(tls_client_auth_san_dns), self_signed_tls_client_auth (jwks with x5c; this also exercises jwkMatchingCert), none, and a client with three different methods for token / introspection / '
+         'revocation: C18DcrRegister (POST /register) -> client_credentials, introspection, PAR with the right and with a wrong credential -> code flow (C18DcrAuthorize) -> refresh -> userinfo -> '
+         'revocation -> GET /register/{id} -> PUT /register/{id} (a new secret where there is one; the previous secret, the new one and a wrong one at /token, /introspect, /revoke, /par) -> '
+         'redemption of a pushed request; plus a registration that changes its method eight times (post -> jwt -> private_key_jwt -> basic -> tls -> jwt -> none -> mixed) with the credential of the '
+         'previous method tried after each change. The world of these histories (flag c18:every-client-authn-method) allows every method at every authenticated endpoint, has mutual TLS and rich '
+         'authorization requests. The storage digest of a client now also says whether a clear secret, a hashed secret, inline keys and TLS attributes are stored and names its three authentication '
+         'methods, so a member lost by the round trip shows at the registration itself (C18DcrRegister:store) and again at the first request that needs it (Token:kind, Introspect:kind, ...). Grants: '
+         're-binding at refresh (updatePoPForRefreshedToken) - code grant bound to DPoP key 1 / certificate 1, refreshes that present key 2, key 2 + certificate 2, nothing, key 1, key 1 + '
+         'certificate 2, key 2, each followed by introspection of the access and of the refresh token (cnf), userinfo and TokenInfoFromRequest with proofs for both keys / both certificates / none, '
+         'TokenInfo; the Tokens observation itself carries the confirmation the provider reports for the token just issued; DPoP x {static, stored} x {rotation on, off} x {opaque, JWT, public client '
+         'as the control}, mTLS and DPoP+mTLS in one world each (quick; the full matrix in the thorough tier). The histories are built online (which refresh token is current depends on which '
+         'refreshes were accepted). Life-time fields (suite_c18_fields.go): callback after a step / after completion / after the session timeout, redemption before and after the code lifetime, '
+         "introspection of the previous and of the new access token after a refresh and after the previous one's lifetime, refresh after the grant's lifetime - the clock moved by Tick only: TokenID, "
+         'LastTokenExpiresAtTimestamp, RefreshToken, CallbackID, PolicyID, AuthCode and the two ExpiresAtTimestamp each decide a later answer. Generator dimension for the confirmation of a grant (30 '
+         'quick / 450 thorough histories, c18GeneratePop): the random cross-endpoint walks of suite c06 (PAR -> authorize -> token -> userinfo / TokenInfoFromRequest -> refresh with the same, '
+         'another or no key / certificate -> introspection -> userinfo, public and confidential clients), two flows per world, over its fifteen binding modes (DPoP / certificate binding / both: '
+         "optional, server-required, client-required, some-binding-required, off), replayed under the four executions. The re-binding, life-time and generated binding histories use the model's op "
+         'type only and are cases for the model as well (run / run_alias_trace agree with all four executions).',
  'note': 'JWT claim sets, additional claim maps and the discovery / jwks endpoints are not in the model: oracles (1)-(3) above are Go side only; histories with C18Discovery / C18Jwks / '
          'C18TokenInfoJSON or with the claim-attaching embedder are not turned into cases for the model. FOUND AND FIXED (defect D26, fix ae6db20): in a hybrid flow the implicit grant stored by the '
          "authorization endpoint shared its three claim maps with the authentication session kept for the code (implicitGrantInfo); what the embedder's HandleGrantFunc added at code redemption "
@@ -61,7 +82,17 @@ PROP = {'suites': ['c18'],
          'static jwks_uri client after a rotation/outage between executions that differ in the instance assignment is reported under the one signature '
          'static-jwks_uri-client:keys-cached-for-the-life-of-the-instance (the defect d7a7b62 repaired); every other difference as <operation>:<field>. Error codes answered to forged tokens depend '
          "on the bytes of the forgery and are compared as refusals. Histories containing the embedder's client removal are compared on the Go side only (the model's op type has no such operation; "
-         'step_alias_copy_equiv covers the states they reach).',
+         'step_alias_copy_equiv covers the states they reach). FOUND ON THE CURRENT TREE, listed as known (K8-C18, signature '
+         'registered-client:authorization_data_types:empty-list-is-absent-after-json): a client registered with `authorization_data_types: []` is refused every authorization detail under the '
+         "repository's storage (isAuthDetailTypeAllowed: only a nil list means 'not announced') and allowed every type under a JSON-copying storage (`omitempty` writes no member for the empty list, "
+         'nil comes back): 303 error=invalid_authorization_details against 303 with a code for the same GET /authorize; history corpus:authn:dcr/authorization_data_types (the clients registered '
+         'without the member and with ["payment"] agree); VERIF_C18_NO_AUTHDETAILS=1 leaves the history out. The same shape (nil and empty told apart in code, not in the omitempty JSON form) exists '
+         'for other stored members and is NOT exercised: internal/token/make.go tests `grantInfo.ActiveAuthDetails != nil` and `grantInfo.ActiveResources != nil` on the stored grant, '
+         'internal/authorize/validation.go `params.Resources == nil` / `params.AuthDetails == nil` on the parameters of a stored pushed session, goidc.Client.FetchPublicJWKS `c.PublicJWKS != nil`; '
+         'the scripted embedder and the form decoder never produce an empty non-nil list there. Seen while configuring the worlds, not a C18 matter: provider.WithSecretJWTSignatureAlgs ranges over '
+         'the characters of its first argument (`for _, a := range alg`) and therefore refuses every algorithm including HS256; the worlds rely on the default (HS256). For a confidential client a '
+         'refresh that presents ANOTHER certificate is refused (validateRefreshTokenBinding compares with the stored thumbprint), so the certificate half of updatePoPForRefreshedToken never changes '
+         'the grant; the mTLS histories are kept as the control. Histories with registered clients (C18DcrRegister / C18DcrAuthorize) are compared on the Go side only.',
  'technique': 'Coq proof (relational: simulation between two interpreters of the same programs via a weakest-precondition calculus for the write-through discipline, lifted to all histories by '
               "induction with C17's one-index invariant) tied to the code by differential replay of generated histories under four executions and by correspondence with the model",
  'design_ref': 'DESIGN.md section 6, C18; section 10.2 (no_touch); Appendix B',
